@@ -450,7 +450,11 @@ def run(ctx):
         "ambient node state: a reference instance, three in-process instances whose state fields are filled by type, and five built by the "
         "production constructor adminServiceRunnable, run under a supervisor and called over the admin unix socket (guardian-set state "
         "nil / empty / index 0 / equal to / higher than the request, empty and non-empty stores, different injectC fill levels and "
-        "histories); any difference in status, message, any VAA field or digest is `result-depends-on-node-state`. Sweeps of very short "
+        "histories); any difference in status, message, any VAA field or digest is `result-depends-on-node-state`. What a call handed to "
+        "injectC is read until QUIESCENCE, not only at the handler's return: an accepted request owes one VAA per returned digest (awaited), every "
+        "goroutine the handler left behind must have ended (stack scan when the goroutine count grew), then the channel is emptied; nil "
+        "pointers found there are `nil-vaa-injected`, an accepted request whose injected VAAs are not - as a multiset - the ones with the "
+        "returned digests is `injected-vaas-not-the-acknowledged` (c15_accepted_handover_exact). Sweeps of very short "
         "hex fields (decoded length 0..3 with every leading-byte class, every 1-byte refund address 00..ff, address type bytes at lengths "
         "2..67) in every hex-carrying field. Single-message requests of "
         "each of the nine kinds (+ unset oneof) with field values across and beyond the wire ranges (chain ids and target chains up to "
